@@ -466,6 +466,11 @@ func directedState(idx int, ctor bool) *stCase {
 			return &stCase{ctor: true, types: []string{"user", "main.richEnt"}, split: 2, docs: []stDoc{
 				ch("user", "été", "insert", 1, true), ch("main.richEnt", "b/c", "insert", 2, true), ch("user", "été", "update", 3, true),
 				ctl("snapshot-start"), ch("main.richEnt", "b/c", "delete", 0, false), ctl("snapshot-end"), ch("user", "q\"uote", "insert", 4, true)}}
+		case 1: // delete, then the same value again (insert / update with the bytes seen before): the entity must be back
+			return &stCase{ctor: true, types: []string{"user", "main.richEnt"}, split: 4, docs: []stDoc{
+				ch("user", "k", "insert", 7, true), ch("user", "k", "delete", 0, false), ch("user", "k", "insert", 7, true),
+				ch("main.richEnt", "k", "insert", 3, true), ch("main.richEnt", "k", "update", 3, true), ch("main.richEnt", "k", "delete", 0, false),
+				ch("main.richEnt", "k", "update", 3, true), ch("user", "k", "update", 7, true)}}
 		}
 		return nil
 	}
@@ -481,6 +486,10 @@ func directedState(idx int, ctor bool) *stCase {
 	case 2: // strict mode: unknown type stops a session; resuming stays stuck there
 		return &stCase{strict: true, types: []string{"user"}, split: 3, docs: []stDoc{
 			ch("user", "1", "insert", 1, true), ch("ghost", "1", "insert", 2, true), ch("user", "1", "update", 3, true)}}
+	case 4: // delete, then the same value again: the entity must be back (and the same across a session split)
+		return &stCase{types: []string{"user", "order"}, split: 3, docs: []stDoc{
+			ch("user", "k", "insert", 7, true), ch("user", "k", "delete", 0, false), ch("user", "k", "insert", 7, true),
+			ch("order", "k", "insert", 7, true), ch("order", "k", "delete", 0, false), ch("order", "k", "update", 7, true), ch("user", "k", "update", 7, true)}}
 	case 3: // error on the last event of the first session
 		return &stCase{types: []string{"user"}, split: 2, docs: []stDoc{
 			ch("user", "1", "insert", 1, true), {kind: "badchange"}, ch("user", "1", "update", 3, true), ch("user", "2", "other", 0, false)}}
@@ -506,8 +515,8 @@ func init() {
 				return Case{Input: c.input(), Obs: obs, Tags: tags, Nontrivial: nt}
 			}})
 	}
-	mk("state", false, 4)
-	mk("statector", true, 1)
+	mk("state", false, 5)
+	mk("statector", true, 2)
 	register(&Family{Name: "statefuzz", Quick: 2000, Thorough: 100000, Run: runStateFuzz})
 }
 
